@@ -225,6 +225,17 @@ def _mirror_wiring(method: int, include_drf: bool, include_dmd: bool) -> bool:
     else:
         ok = ok and not rb and not mv and len(hs) == 1
         if include_drf and include_dmd: ok = ok and L.RE_DRFDMD in pats(copy)
+    # exact selection of the first handler: data files of the selected kinds (RF data only when it is not moved by the separate handler),
+    # and the properties file of each selected kind -- never the properties of a kind that was deselected
+    d_drf = include_drf and method != 1; d_dmd = include_dmd
+    want = []
+    if d_drf and d_dmd: want.append(L.RE_DRFDMD)
+    elif d_drf: want.append(L.RE_DRF)
+    elif d_dmd: want.append(L.RE_DMD)
+    if include_drf and include_dmd: want.append(L.RE_DRFDMDPROP)
+    elif include_drf: want.append(L.RE_DRFPROP)
+    elif include_dmd: want.append(L.RE_DMDPROP)
+    ok = ok and pats(copy) == sorted(want)
     return ok
 
 
